@@ -326,12 +326,12 @@ Proof.
   intros H. induction is as [|[n merge] rest IH]; intros base my.
   - rewrite !env_go_nil. apply meq_refl.
   - rewrite !env_go_cons, call_perm. apply meq_bind; [apply meq_refl|]. intros [i|].
-    + destruct (is_evaluating i); [apply meq_bind; [apply meq_refl|intros _; apply IH]|apply IH].
+    + destruct (is_evaluating i); [apply meq_bind; [apply meq_refl|intros _; apply IH]|destruct (is_value i); apply IH].
     + apply meq_bind; [apply meq_refl|]. intro failed. apply meq_bind; [apply meq_refl|]. intros _.
       pose proof (load_result_perm failed n) as Hl.
       destruct (load_result W failed n), (load_result W' failed n); inversion Hl; subst.
-      * apply meq_bind; [apply meq_refl|intros _; apply IH].
-      * apply meq_bind; [apply meq_refl|intros _; apply IH].
+      * apply meq_bind; [apply meq_refl|intros _]. apply meq_bind; [apply meq_refl|intros _; apply IH].
+      * apply meq_bind; [apply meq_refl|intros _]. apply meq_bind; [apply meq_refl|intros _; apply IH].
       * apply meq_bind; [apply H; assumption|]. intro v. apply meq_bind; [apply meq_refl|intros _; apply IH].
 Qed.
 
